@@ -31,7 +31,7 @@ PROP = dict(
          'P-256/384/521, Ed25519, RSA 1024/2048/3072(/768), hash, names, validity, basicConstraints/pathLen, keyUsage, EKU, AKI/SKI, '
          'unknown (critical) extension, version, serial, signature class valid/bit-flipped/copied/wrong-key/alg-mismatch; presented chain '
          'in order/root appended/permuted/missing link/foreign extra/twin substituted/duplicate; anchor list; CRLs genuine/forged/'
-         'wrong signer/no cRLSign/expired; c03_crl_history: sequences of 2-4 validations (leaf alone / with genuine parents / with a same-name impostor or wrong-key parent, sibling leaf) over one trust store and one CRL cache with CRL re-loads and replacements, same oracle after every step; c03_dates: one validity bound of one path certificate (leaf/intermediate/root) encoded as UTCTime YY in {49,50,51,99,00,70,38} or GeneralizedTime 1949/1950/1970/2038/2049/2050/2099/2100/2999/9999 or placed -86401..+86401 s around the virtual now in auto/UTCTime/GeneralizedTime encoding, virtual now also moved to 2049-12-31T23:59:59/2050-01-01/2028-02-29/2038-01-19/2100-03-01, CRL nextUpdate likewise; the reference reads dates per RFC 5280 4.1.2.5; c03_same_name: a certificate reusing the subject DN of its issuer (end entity / intermediate / root as issuer, basicConstraints absent/false/true+pathLen x keyUsage absent/with/without keyCertSign, child = end entity or CA with a leaf below, self-signed impostor variant, issuer also pinned as trust anchor), self-issued intermediates do not consume pathLen in the soundness reference (RFC 5280 6.1.4 l)); c03_anchor_load: the trust store is one CA file parsed in a single call with the flags of matrixSslAddTrustAnchors (CERT_ALLOW_BUNDLE_PARTIAL_PARSE), one entry - the root of the path or an unrelated entry before/after it - carries an unknown critical extension / is v1 / has a 768-bit key / weak-hash, corrupted or mislabelled self-signature / is expired (the option is also drawn in 1/4 of the cases of the other non-history generators); a trust anchor with an unrecognised critical extension is not a usable anchor for the reference, any accepted path whose reported issuer entry has parseStatus != SUCCESS gets the signature accepts-unparsed-trust-anchor; c03_crl_history also loads CRLs of OTHER issuers (root, foreign CA, unrelated root) through psCRL_Update after the CRL of the leaf issuer and between validations, the reference being per issuer name; completeness: a child WITHOUT authorityKeyIdentifier is accepted whether or not its issuer has a subjectKeyIdentifier (a present, mismatching identifier stays counted only). non-trivial = chain length >= 2 with an injected defect or non-standard shape, or a fully '
+         'wrong signer/no cRLSign/expired; c03_crl_history: sequences of 2-4 validations (leaf alone / with genuine parents / with a same-name impostor or wrong-key parent, sibling leaf) over one trust store and one CRL cache with CRL re-loads and replacements, same oracle after every step; c03_dates: one validity bound of one path certificate (leaf/intermediate/root) encoded as UTCTime YY in {49,50,51,99,00,70,38} or GeneralizedTime 1949/1950/1970/2038/2049/2050/2099/2100/2999/9999 or placed -86401..+86401 s around the virtual now in auto/UTCTime/GeneralizedTime encoding, virtual now also moved to 2049-12-31T23:59:59/2050-01-01/2028-02-29/2038-01-19/2100-03-01, CRL nextUpdate likewise; the reference reads dates per RFC 5280 4.1.2.5; c03_same_name: a certificate reusing the subject DN of its issuer (end entity / intermediate / root as issuer, basicConstraints absent/false/true+pathLen x keyUsage absent/with/without keyCertSign, child = end entity or CA with a leaf below, self-signed impostor variant, issuer also pinned as trust anchor), self-issued intermediates do not consume pathLen in the soundness reference (RFC 5280 6.1.4 l)); c03_anchor_load: the trust store is one CA file parsed in a single call with the flags of matrixSslAddTrustAnchors (CERT_ALLOW_BUNDLE_PARTIAL_PARSE), one entry - the root of the path or an unrelated entry before/after it - carries an unknown critical extension / is v1 / has a 768-bit key / weak-hash, corrupted or mislabelled self-signature / is expired (the option is also drawn in 1/4 of the cases of the other non-history generators); a trust anchor with an unrecognised critical extension is not a usable anchor for the reference, any accepted path whose reported issuer entry has parseStatus != SUCCESS gets the signature accepts-unparsed-trust-anchor; c03_crl_history also loads CRLs of OTHER issuers (root, foreign CA, unrelated root) through psCRL_Update after the CRL of the leaf issuer and between validations, the reference being per issuer name; c03_anchor_load also relabels both AlgorithmIdentifiers of a path certificate to the other signature family (EC signer labelled shaNNNWithRSAEncryption, RSA signer ecdsa-with-SHANNN; genuine or wrong-key signature): the lax reference ignores the label because the signature is still a genuine one by the issuer key with an enabled algorithm (acceptance is only counted, mislabel:* counters), a wrong-key signature must still be rejected; an empty trust store makes the harness call the API with issuerCerts == NULL (documented self-signed mode) and only count the result (TLS side: C04); completeness: a child WITHOUT authorityKeyIdentifier is accepted whether or not its issuer has a subjectKeyIdentifier (a present, mismatching identifier stays counted only). non-trivial = chain length >= 2 with an injected defect or non-standard shape, or a fully '
          'valid chain of length >= 3; distinct by (generator kind, shape, anchor kind, length, defect classes and positions, key types)',
     assumptions=['OpenSSL 3.0 libcrypto encodes and signs certificates/CRLs correctly',
                  'time() is the only wall-clock source of the certificate date check (interposed by ld --wrap)'],
